@@ -47,29 +47,72 @@ class Exec:
         s.called = set(); s.path_samples = []; s.completed_models = []; s.keep_models = 0
         s.domain_checks = False; s.domain_issues = []; s.record_reads = False
         s.srt = z3.RealSort() if mode == 'real' else F64
-        s.deadline = None
+        s.deadline = None; s.vcache = {}; s.slicing = (mode == 'real')
     # ------------------------------------------------------------ solver
-    def check(s, st, extra=(), want_model=True):
+    def vars_of(s, e):
+        """uninterpreted constants and function symbols occurring in e (cached per AST id)"""
+        c = s.vcache.get(e.get_id())
+        if c is not None: return c[1]
+        out = set(); seen = set(); stack = [e]
+        while stack:
+            x = stack.pop(); i = x.get_id()
+            if i in seen: continue
+            seen.add(i)
+            sub = s.vcache.get(i)
+            if sub is not None: out |= sub[1]; continue
+            if z3.is_app(x):
+                d = x.decl()
+                if d.kind() == z3.Z3_OP_UNINTERPRETED: out.add(d.name())
+                stack.extend(x.children())
+        out = frozenset(out); s.vcache[e.get_id()] = (e, out)
+        return out
+    def slice_pc(s, st, extra):
+        """constraints of pc transitively sharing symbols with extra (KLEE-style independence); sound because the
+        remaining constraints are satisfiable on their own (paths are only continued when feasible)"""
+        need = set()
+        for c in extra: need |= s.vars_of(c)
+        items = [(c, s.vars_of(c)) for c in st.pc]
+        chosen = []; rest = items; changed = True
+        while changed:
+            changed = False; nrest = []
+            for c, v in rest:
+                if v & need: chosen.append(c); need |= v; changed = True
+                elif not v: chosen.append(c)
+                else: nrest.append((c, v))
+            rest = nrest
+        return chosen, frozenset(need), len(rest)
+    def check(s, st, extra=(), want_model=True, full=False):
+        """-> (result, (model, covered symbols | None))"""
         if s.deadline is not None and time.time() > s.deadline: raise Unsupported('TIME-CAP')
         sol = z3.Solver(); sol.set('timeout', s.qtimeout)
-        sol.add(*st.pc); sol.add(*extra)
+        cov = None
+        if extra and not full and s.slicing and len(st.pc) > 3:
+            chosen, need, dropped = s.slice_pc(st, extra)
+            sol.add(*chosen)
+            if dropped: cov = need
+        else: sol.add(*st.pc)
+        sol.add(*extra)
         t = time.time(); r = sol.check(); s.stats['solver_s'] += time.time() - t; s.stats['queries'] += 1
         if r == z3.unknown: s.stats['unknown'] += 1
-        return r, (sol.model() if (r == z3.sat and want_model) else None)
+        return r, ((sol.model(), cov) if (r == z3.sat and want_model) else None)
+    def full_model(s, st, extra=()):
+        """a model of the whole path condition (for counterexamples / replay inputs); falls back to None"""
+        r, m = s.check(st, extra, full=True)
+        return m[0] if r == z3.sat else None
     def fresh(s, name): s.counter += 1; return '%s!%d' % (name, s.counter)
+    def model_says(s, st, c):
+        if st.model is None: return False
+        m, cov = st.model
+        if cov is not None and not (s.vars_of(c) <= cov): return False
+        try: return z3.is_true(m.eval(c, model_completion=True))
+        except z3.Z3Exception: return False
     def add_pc(s, st, c):
         st.pc.append(c)
-        if st.model is not None:
-            try:
-                if not z3.is_true(st.model.eval(c, model_completion=True)): st.model = None
-            except z3.Z3Exception: st.model = None
+        if st.model is not None and not s.model_says(st, c): st.model = None
     def feasible(s, st, c):
-        """is pc ∧ c satisfiable?  returns (sat?, model)   unknown counts as feasible"""
-        if st.model is not None:
-            try:
-                if z3.is_true(st.model.eval(c, model_completion=True)):
-                    s.stats['model_hits'] += 1; return True, st.model
-            except z3.Z3Exception: pass
+        """is pc and c satisfiable?  returns (sat?, model)   unknown counts as feasible"""
+        if s.model_says(st, c):
+            s.stats['model_hits'] += 1; return True, st.model
         r, m = s.check(st, [c])
         if r == z3.unsat: return False, None
         return True, m
@@ -147,11 +190,11 @@ class Exec:
     def enum_values(s, st, x, what, limit=48):
         vals = []; extra = []
         while len(vals) <= limit:
-            r, m = s.check(st, extra)
+            r, m = s.check(st, extra if extra else [x[2] == x[2]])
             if r != z3.sat:
                 if r == z3.unknown: raise Unsupported('unknown while concretising ' + what)
                 break
-            v = m.eval(x[2], model_completion=True).as_long(); vals.append(v); extra.append(x[2] != v)
+            v = m[0].eval(x[2], model_completion=True).as_long(); vals.append(v); extra.append(x[2] != v)
         if len(vals) > limit: raise Unsupported('more than %d values to concretise (%s)' % (limit, what))
         if not vals: raise PathEnd()
         s.stats['forks'] += 1
@@ -370,9 +413,7 @@ class Exec:
         if outcome in ('INFEASIBLE', 'ASSUME-FALSE'): s.stats['infeasible'] += 1; return
         s.reached['__path_' + outcome] = s.reached.get('__path_' + outcome, 0) + 1
         if len(s.completed_models) < s.keep_models and outcome in ('END', 'THROW'):
-            m = st.model
-            if m is None:
-                r, m = s.check(st)
+            m = st.model[0] if (st.model is not None and st.model[1] is None) else s.full_model(st)
             if m is not None: s.completed_models.append((s.model_inputs(m, st.inputs), outcome, list(st.outs)))
     def model_inputs(s, m, inputs):
         out = []
@@ -419,7 +460,7 @@ class Exec:
             except Throw:
                 if not s.unwind(st): raise
             except MemViolation as e:
-                r, m = (z3.sat, st.model) if st.model is not None else s.check(st)
+                m = s.full_model(st); r = z3.sat if m is not None else z3.unknown
                 where = '%s block %s: %s' % (fr.fn.name[:100], fr.block, text[:160])
                 if r == z3.sat: s.violations.append(Violation('memory', str(e), m, st, where))
                 elif r == z3.unknown: s.undecided.append(('memory?', str(e) + ' @ ' + where))
@@ -644,6 +685,6 @@ class Exec:
             if b[1] == 0.0: s.domain_issues.append(('fdiv by constant zero', None, st))
             return
         r, m = s.check(st, [s.fz(b) == 0])
-        if r == z3.sat: s.domain_issues.append(('fdiv: divisor can be zero', m, st.clone()))
+        if r == z3.sat: s.domain_issues.append(('fdiv: divisor can be zero', s.full_model(st, [s.fz(b) == 0]) or m[0], st.clone()))
 
 EXTERN_FIRST = set()
